@@ -165,9 +165,9 @@ Lemma step_emit_front st bytes ref e st' :
   st_ok st -> ma_ok st -> emit_front st bytes = Some (ref, e, st') -> small st' ->
   step st st' /\ ref = e_start st - lenZ bytes /\ e_start st' = ref /\ e_end st' = e_end st /\
   min_align st' = min_align st /\ vcache st' = vcache st /\ mem_has (vmem st') ref bytes /\
-  e = {| em_off := ref; em_bytes := bytes |}.
+  ref < e_start st.
 Proof.
-  intros Hok Hma E Hsm. destruct (emit_front_ok st bytes ref e st' Hok E Hsm) as (Hr & -> & Hok' & He).
+  intros Hok Hma E Hsm. destruct (emit_front_ok st bytes ref e st' Hok E Hsm) as (Hr & -> & Hok' & He & Hlt).
   pose proof (lenZ_nonneg bytes).
   split.
   { constructor; auto.
@@ -177,7 +177,7 @@ Proof.
     - unfold same_ctl. cbn. tauto.
     - cbn. lia. }
   split; [exact Hr|]. split; [reflexivity|]. split; [reflexivity|]. split; [reflexivity|]. split; [reflexivity|].
-  split; [exact (vmem_front_new st ref bytes Hok Hr) | exact He].
+  split; [exact (vmem_front_new st ref bytes Hok Hr) | exact Hlt].
 Qed.
 
 Lemma step_emit_back st bytes ref e st' :
